@@ -75,6 +75,9 @@ def worker_finish(tier, rec, st):
     common.finish_monitors(rec, st)
 
 
+CONV_SRC = {"int": "int", "str": "str", "date": "datetime.date.fromisoformat", "dec": "decimal.Decimal"}
+
+
 def gen_level(rng, prefix, k, allow_required, counter):
     """one class body: list of field dicts."""
     out = []
@@ -103,6 +106,9 @@ def gen_level(rng, prefix, k, allow_required, counter):
             seen_default = True
         if role in ("req", "def", "fac", "kwreq", "kwdef") and rng.random() < 0.25:
             f["alias"] = f"A_{name}"
+            if f["tk"] in CONV_SRC and rng.random() < 0.35:
+                # the alias comes from Config.aliases; the member's field_options carry something else (alias=None there)
+                f["alias_via_cfg"] = True
         out.append(f)
     return out
 
@@ -119,6 +125,8 @@ def render_level(fields):
         dsrc, dval = dflt(f["n"])
         f["default"] = dval
         meta = f", metadata=field_options(alias={f['alias']!r})" if f.get("alias") else ""
+        if f.get("alias_via_cfg"):
+            meta = f", metadata=field_options(deserialize={CONV_SRC[f['tk']]})"
         name = f["name"]
         if f.get("bare"):
             # re-annotated without a value: dataclasses make a fresh field whose default is the class attribute found
@@ -188,7 +196,8 @@ def run_case(seed, tier, rec, st):
                 for lv in where:
                     if not diamond and base_f["role"] in ("def", "req") and rng.random() < 0.35:
                         o = dict(base_f, override_level=lv, bare=True)
-                        o.pop("alias", None)
+                        if not o.get("alias_via_cfg"):
+                            o.pop("alias", None)          # (an alias from Config.aliases is the class's, it stays)
                         overrides.append(o)
                         continue
                     counter[0] += 1
@@ -198,6 +207,11 @@ def run_case(seed, tier, rec, st):
             cfg.append("allow_deserialization_not_by_alias = True")
         if lazy:
             cfg.append("lazy_compilation = True")
+        cfg_aliases = {f["name"]: f["alias"] for b in bodies for f in b if f.get("alias_via_cfg")}
+        cfg_aliases.update({o["name"]: o["alias"] for o in overrides if o.get("alias_via_cfg") and o.get("alias")})
+        if cfg_aliases:
+            cfg.append(f"aliases = {cfg_aliases!r}")
+        plain_chain = nbodies > 1 and not diamond and rng.random() < 0.2
         src = []
         names = ["B", "C", "E", "F"][:nbodies]
         class_fields = {}
@@ -232,7 +246,14 @@ def run_case(seed, tier, rec, st):
                     body += render_level([o])
                     own.append(o)
             class_fields[names[lv]] = own
-            if cfg and lv == nbodies - 1:
+            if plain_chain and lv == 0:
+                # PLAIN Config classes deriving from each other: the root's says the opposite of what the leaf's says
+                body.append("    class Config:")
+                body += [f"        allow_deserialization_not_by_alias = {not allow}", f"        aliases = {dict((n_, 'ROOT_' + n_) for n_ in cfg_aliases)!r}", "        forbid_extra_keys = False"]
+            if plain_chain and lv == nbodies - 1:
+                body.append("    class Config(B.Config):")
+                body += [f"        allow_deserialization_not_by_alias = {allow}", f"        aliases = {cfg_aliases!r}"] + (["        lazy_compilation = True"] if lazy else [])
+            elif cfg and lv == nbodies - 1:
                 body.append("    class Config(BaseConfig):")
                 body += [f"        {c}" for c in cfg]
             src += body or ["    pass"]
@@ -337,7 +358,7 @@ def run_case(seed, tier, rec, st):
                     exp[name] = getattr(cls, name) if diamond else spec[name]["default"]
             det = lambda **kw: dict({"source": "\n".join(src), "input": common.short(d, 400), "present": [n for p, n in zip(mask, init_fields) if p]}, **kw)
             facts = {"allow_not_by_alias": allow, "levels": levels, "override": bool(overrides), "diamond": diamond, "via_holder_after_ancestor": via_holder,
-                     "undecorated_base": zbase is not None, "bare_reannotation": any(o.get("bare") for o in overrides)}
+                     "undecorated_base": zbase is not None, "bare_reannotation": any(o.get("bare") for o in overrides), "plain_config_chain": plain_chain}
             try:
                 r = dec(dict(d))
                 r2 = dec(dict(d))
